@@ -63,7 +63,7 @@ PROPS["C15"] = dict(
          "-race in the thorough tier, a quarter of the cases with GOMAXPROCS(1)), each with ONE ObjectsWriter value whose exported "
          "Writer field is re-pointed before every item to one of 1..4 destinations of its own: bytes.Buffer (io.StringWriter), a "
          "plain io.Writer, a framing writer whose Write sends p as one length-prefixed frame through a second ObjectsWriter, a "
-         "writer that yields the processor inside Write, and (a third of the drawn destinations) a *bufio.Writer of 1..24, "
+         "writer that yields the processor inside Write, (rapid) a quota sink - see below - and (a third of the drawn destinations) a *bufio.Writer of 1..24, "
          "25..300 or 4096 bytes over an io.Writer-only sink into which the harness has already written 0..size bytes (4096: "
          "0..24 bytes left free), so that the items meet whatever free space the history leaves (classes "
          "writers_bufio_item_met_lt_10_free_bytes / _0_free_bytes); ObjectsWriter.Writer is the *bufio.Writer itself and the "
@@ -83,13 +83,34 @@ PROPS["C15"] = dict(
          "and all lists of 2 (thorough 2..3) steps with Fork on a step after the first; rapid: a third of the histories have "
          "Copy (Pre 0..3 items), a tenth of the steps Fork (classes writers_are_copies_of_a_used_writer, "
          "writers_copies_of_a_used_writer_nested_in_framing_sink / _on_ge_2_goroutines, "
-         "writers_framing_sink_given_copy_of_used_outer_writer). Not generated: ONE ObjectsWriter value used by two goroutines "
-         "or re-entered from its own sink (the scratch array is per value), sinks that fail or write short (io.Writer demands an error "
-         "for a short write, and the property says nothing about what ObjectsWriter returns when its Writer fails). "
+         "writers_framing_sink_given_copy_of_used_outer_writer). "
+         "Sinks that are out of order for a while (same case type): a step with Fail set meets a sink that takes Room % size more "
+         "bytes (size = the item's encoding, so a Write of the step always fails) and answers the Write that does not fit with "
+         "(what fitted, error): n == 0 with an error, or a partial write 0 < n < len(p) with an error, as io.Writer allows (torn "
+         "prefix, complete prefix and (0, error) for the body, torn body, torn fixed-width number). A destination of the new kind "
+         "`quota` (io.Writer only) does that itself and works again when the step is over - the SAME Writer value recovers; for "
+         "every other destination kind the Writer field points to a failing writer during the step and is re-pointed to the "
+         "healthy destination by the next step. NOT judged: what ObjectsWriter returns for the failing step and what the torn "
+         "item left in the sink (the property says nothing about a failing Writer; the harness's sink drops the torn bytes, as "
+         "an owner who repairs the stream does). Judged as ever - (size, nil) and exactly the Marshal bytes in the destination - "
+         "is every step made while the sink is healthy, before and AFTER failures: the writer's result for an item does not "
+         "depend on what happened to earlier items. With PreFail the last item of the base writer (Copy) met such a sink, so "
+         "all writers of the history are copies of a writer whose last call failed. Exhaustive: [nothing | an item | another "
+         "failing step], one failing step for each of the 9 items x every Room 0..size-1 (sizes above 12: 0..4, size-2, size-1), "
+         "then each of the 9 items as the first judged write to the same or to another destination and one more item, over the "
+         "destinations quota / bytes.Buffer / framing / bufio(7, 3 filled), and the same as copies of a failed base writer; rapid: "
+         "half of the histories have failing steps (one step in eight, one in two directly after a failing step; Room 0, 1..11, "
+         "0..2100), a third of their Copy histories a failed base writer (classes writers_sink_failed_with_n_0, "
+         "writers_sink_partial_write_with_error, writers_sink_failed_ge_2_steps_in_a_row, "
+         "writers_item_judged_on_recovered_sink_same_Writer_value, writers_item_judged_after_Writer_repointed_from_failed_sink, "
+         "writers_are_copies_of_a_writer_whose_last_call_failed). "
+         "Not generated: ONE ObjectsWriter value used by two goroutines "
+         "or re-entered from its own sink (the scratch array is per value), sinks that write short WITHOUT an error (io.Writer demands an error "
+         "for a short write), a *bufio.Writer over a failing sink (bufio keeps the error for good: such a Writer never recovers). "
          "non-trivial = some varint value or byte-string length is within 2 of 2^(7k) (or the varint is >= 2^64-3), or a "
          "fixed-width value is within 2 of 2^(8k) or of the top of its range; rejected short destinations are exercised by "
          "every case and counted in short_destination_rejections_checked; a writer history is non-trivial when the Writer field "
-         "changed between two items, or a destination is not a bytes.Buffer, or more than one goroutine wrote, or a writer is a copy of a used writer; a huge body is "
+         "changed between two items, or a destination is not a bytes.Buffer, or more than one goroutine wrote, or a writer is a copy of a used writer, or an item was judged after a sink failure; a huge body is "
          "non-trivial when its length is within 2 of 2^(7k) or above 2^30; a huge stream when it has a value above 2^30 bytes or two "
          "byte strings whose different lengths agree in their low 16, 31 or 32 bits; "
          "distinct = FNV hash of the case's JSON form",
@@ -102,7 +123,8 @@ PROPS["C15"] = dict(
                  "ObjectsWriter may be copied by value, also after it was used: it is an exported struct of an exported io.Writer field and a scratch array, nothing in the package says 'must not be copied' (as bytes.Buffer / strings.Builder / sync types do), go vet's copylocks has nothing to report and the package's own tests use it as a value; each copy is an independent writer ('ObjectsWriter and Marshal emit identical bytes' holds for each), one VALUE is used by one goroutine at a time",
                  "a *bufio.Writer is an ordinary io.Writer for ObjectsWriter: what reaches the underlying sink after Flush is what ObjectsWriter was asked to write, whatever free space the buffer had",
                  "huge_bodies / huge_streams: an anonymous private MAP_NORESERVE mapping (or, failing that, a fresh Go allocation) of up to 27 GiB is zeroed address space that the operating system backs lazily (Linux, 64-bit); the units read at most 64 KiB at the start of it and write at most 16 bytes per item, on pages they give back (MADV_DONTNEED) after the case; where that address space cannot be had (mapping refused and more than 6 GiB needed) the case is not decided and listed as inconclusive, never reported as a violation",
-                 "a value that follows other values on the same ObjectsWriter is 'a value' like any other: the writer's result for an item does not depend on the items it has written before (C15 speaks of every value and of any concatenation)"],
+                 "a value that follows other values on the same ObjectsWriter is 'a value' like any other: the writer's result for an item does not depend on the items it has written before (C15 speaks of every value and of any concatenation)",
+                 "the same holds after a call during which the Writer failed: C15 leaves the failing call itself open (its result and the torn bytes are not judged), but a later item written while the Writer is healthy - because the sink recovered or because the exported Writer field was pointed to another sink - is an ordinary write whose count is the predicted size and whose bytes are the Marshal encoding; nothing in the package documents a sticky error state"],
     units=[
         dict(name="exhaustive", run="^TestC15Exhaustive$", shards=(2, 8), timeout=(200, 600)),
         dict(name="rapid", run="^TestC15Rapid$", checks=(4000, 60000), shards=(8, 16), timeout=(200, 900)),
